@@ -694,6 +694,12 @@ val build_mm : val0 option list -> tables -> tables * val0 option list
 
 val add_mm : val0 option list -> val0 option -> blk -> blk * bool
 
+val add_qr_item : val0 option list -> val0 option -> blk -> blk * bool
+
+val add_mm_item : val0 option list -> val0 option -> blk -> blk * bool
+
+val add_aec_item : val0 option list -> val0 option -> blk -> blk * bool
+
 val to_u64 : z -> n
 
 val offset_val : ts -> n -> val0 -> val0
